@@ -124,7 +124,7 @@ CHECKS = {
         "record number k and the raw bytes of record k including its length prefix (message-level faults), the four "
         "length bytes (oversized length) or the bytes that could be read (truncated record); blocked files behave as "
         "their payload stream (Props/C10.lean). Tied to /repo by every k in files of n records x 8 fault kinds x 2 formats "
-        "x 2 codecs, including the operator report text. In addition a SOURCE TIE: harness/pytrans.py translates the current Python text of VbsReader.__next__ (raises rendered as results) into Lean (Gen/Src.lean) on every run and lean/Cardutil/SrcTie/Reader.lean proves, for all inputs, that the translation equals the model (and restates the property for the translated code); when the source changes so that this no longer checks, the check runs its thorough generators before answering (the correspondence remains the deciding tie).",
+        "x 2 codecs, including the operator report text. In addition a SOURCE TIE: harness/pytrans.py translates the current Python text of VbsReader.__next__ (raises rendered as results) into Lean (Gen/Src.lean) on every run and lean/Cardutil/SrcTie/Reader.lean proves, for all inputs, that the translation equals the model (and restates the property for the translated code); IpmReader.__next__ is translated too (the base method through super(), the message decoder as an external function) and lean/Cardutil/SrcTie/IpmReader.lean proves C10_source_message_fault — the error carries the record's own number and the raw record with its length prefix — C10_source_framing_fault and C10_source_delivers; when the source changes so that this no longer checks, the check runs its thorough generators before answering (the correspondence remains the deciding tie).",
         "Trusted: as C03/C07.",
         "DESIGN.md §8 C10"),
     'C18': (
